@@ -501,7 +501,10 @@ func (s *scope) lookupName(name unistring.String) (binding *binding, noDynamics 
 		if curScope.dynamic {
 			noDynamics = false
 		}
-		if name == "arguments" && curScope.funcType != funcNone && curScope.funcType != funcArrow {
+		// (the variable scope of strict eval code carries the function type of its caller but is not a function:
+		// 'arguments' is the caller's, found dynamically)
+		if name == "arguments" && curScope.funcType != funcNone && curScope.funcType != funcArrow &&
+			!(curScope.variable && curScope.outer != nil && curScope.outer.eval) {
 			if curScope.funcType == funcClsInit {
 				s.c.throwSyntaxError(0, "'arguments' is not allowed in class field initializer or static initialization block")
 			}
